@@ -69,10 +69,9 @@ func findURLGuard(p *Program, r *Report, rule string) *urlGuard {
 		r.Undec(rule, "safehtml.URLSanitized", "", "anchor not found")
 		return nil
 	}
-	regs, unres := p.AllRegexes()
-	if len(unres) > 0 {
-		r.Undec(rule, "regexp-constants", unres[0], fmt.Sprintf("%d regexp.MustCompile call sites with non-constant argument", len(unres)))
-	}
+	// a pattern that cannot be resolved to a constant makes the guard that uses it unsummarisable (reported
+	// there); unresolved patterns elsewhere in the repository are no concern of this property
+	regs, _ := p.AllRegexes()
 	pv := NewProv(p)
 	pv.NoInline = true
 	stores := safeStores(fn, modulePath, "URL")
